@@ -50,6 +50,7 @@ type schedX struct {
 	mintWho     []string
 	scn         string
 	outsOf      map[string][]world.Out
+	initPending map[int]bool // proofs locked by a melt when the controlled phase begins
 	sigs        []sigRec // signatures handed out by the concurrent requests, with the output they answer
 	kindsAll    []string
 	freeRun     bool
@@ -391,6 +392,14 @@ func execSched(sc *schedScn, prefix []int) (res sched.Res) {
 	w.M.DB.After = prevAfter
 	w.LN.Hook = func(m, method string) { s.Point("ln:" + method) }
 	sc.setup(x)
+	x.initPending = map[int]bool{}
+	if t, err := w.ReadTables(); err == nil {
+		for i, p := range w.Proofs {
+			if _, ok := t.Pending[p.Y]; ok {
+				x.initPending[i] = true
+			}
+		}
+	}
 	if schedWithKeys {
 		w.M.DB.KeepRes, w.LN.KeepRes = true, true
 		s.KeyFn, s.ResultsFn = schedKeyFns(w)
@@ -495,6 +504,26 @@ func oracleC01(used []int) func(x *schedX) {
 			}
 			if acc == 0 && final == "SPENT" {
 				x.viol("C06", "proof-spent-without-successful-operation", "p%d reported SPENT although no operation consumed it: %s", n, strings.Join(x.obs, "; "))
+			}
+		}
+		// a proof that was locked when the race began and ends SPENT was never unspent in between: no state check may say so
+		// (the two writes of a settlement must not be observable half done)
+		for k, n := range x.checkIdx {
+			if !x.initPending[n] {
+				continue
+			}
+			final := ""
+			if st, err := w.M.M.ProofsStateCheck([]string{w.Proofs[n].Y}); err == nil && len(st) == 1 {
+				final = st[0].State.String()
+			}
+			if final != "SPENT" || x.swapOK[n] > 0 {
+				continue
+			}
+			for _, obs := range x.checks {
+				if k < len(obs) && obs[k] == "UNSPENT" {
+					x.viol("C15", x.scn+"/state-check-unspent-while-settling", "p%d was PENDING before and is SPENT after, but a state check in between reported UNSPENT: %s", n, strings.Join(x.obs, "; "))
+					break
+				}
 			}
 		}
 		// monotone: never SPENT -> something else
